@@ -16,7 +16,7 @@ QUOTAS = {
 
 
 def run(prop, kind, tier, seed, quotas, own_prefixes, clauses, want=None, extra_cov=None, level='translation_validation',
-        default_checks_are_mine=False):
+        default_checks_are_mine=False, post=None):
     os.environ['VERIF_TIER_EFF'] = tier
     t0 = time.time()
     out = Outcome(prop)
@@ -34,6 +34,8 @@ def run(prop, kind, tier, seed, quotas, own_prefixes, clauses, want=None, extra_
     cov['disagreements_checked'] = cov['failed']
     if extra_cov:
         cov.update(extra_cov)
+    if post:
+        post(out, cov)
     write_evidence(prop, tier, seed, level, cov,
                    ['values are drawn as arbitrary u64 words (kani::any) through the reference value type and rebuilt as generated values',
                     'enum / custom-field values that the generated TryFrom refuses cannot be constructed and are skipped',
